@@ -1,0 +1,8 @@
+//go:build !verif
+
+package utreexo
+
+// verifPoint and verifTick are verification hooks. They do nothing unless the
+// package is built with the "verif" build tag.
+func verifPoint(string) {}
+func verifTick(string)  {}
